@@ -18,7 +18,7 @@ id {string}: /[a-z]+/ { $$ = "strings".ToUpper(l.Text()) }
 Sum {int} :
     num                { $$ = $num }
   | id                 { $$ = len($id) + "unicode/utf8".RuneCountInString($id) }
-  | Sum '+' num        { $$ = $Sum + $num; _ = "encoding/json as enc".Valid }
+  | Sum '+' num        { $$ = $Sum + $num; _ = "encoding/json as enc_2".Valid }
 ;
 
 %%
